@@ -10,6 +10,8 @@ import (
 	gogotypes "github.com/cosmos/gogoproto/types"
 	sdk "github.com/cosmos/cosmos-sdk/types"
 
+	oraclekeeper "mods.irisnet.org/modules/oracle/keeper"
+	oracletypes "mods.irisnet.org/modules/oracle/types"
 	servicekeeper "mods.irisnet.org/modules/service/keeper"
 	servicetypes "mods.irisnet.org/modules/service/types"
 
@@ -23,6 +25,12 @@ import (
 //   update : A sender, B context, N timeout, M frequency, C total
 //   respond: B context, D provider (0: actor 2, 1: actor 3)
 //   block  : Dt seconds — the service end-blocker of the current block, then the next block
+// environment only (contexts owned by the oracle module are outside the model: they and their
+// queue entries are filtered out of the observations; what they add is the module callbacks
+// running inside the end-blocker):
+//   feed    : N timeout, M frequency, D provider set (bits 0, 1), C response threshold — create and start a feed
+//   frespond: B feed (index), D provider, E value (0: not a number)
+//   fpause / fstart: B feed
 
 const svcName = "queue-svc"
 
@@ -39,6 +47,7 @@ func genService(r *lib.Rand, tier string) History {
 		paused, dead    bool
 	}
 	var cs []gc
+	nfeeds := 0
 	for b := 0; b < nblocks; b++ {
 		height := int64(b + 1)
 		pick := func(want func(g gc) bool) int {
@@ -111,6 +120,21 @@ func genService(r *lib.Rand, tier string) History {
 				h.Steps = append(h.Steps, st)
 				continue
 			}
+			if r.Chance(1, 4) {
+				switch {
+				case nfeeds == 0 || r.Chance(1, 5):
+					n := int64(1 + r.Intn(3))
+					h.Steps = append(h.Steps, Step{Op: "feed", N: n, M: n + int64(r.Intn(3)), D: 1 + r.Intn(3), C: 1 + r.Intn(2)})
+					nfeeds++
+				case r.Chance(4, 6):
+					h.Steps = append(h.Steps, Step{Op: "frespond", B: r.Intn(nfeeds), D: r.Intn(2), E: r.Intn(50)})
+				case r.Chance(1, 2):
+					h.Steps = append(h.Steps, Step{Op: "fpause", B: r.Intn(nfeeds)})
+				default:
+					h.Steps = append(h.Steps, Step{Op: "fstart", B: r.Intn(nfeeds)})
+				}
+				continue
+			}
 			st := Step{Op: "call", A: 0, N: int64(2 + r.Intn(4)), D: 1 + r.Intn(3)}
 			if r.Chance(1, 6) {
 				st.A = 1
@@ -174,8 +198,9 @@ func minInt(a, b int) int {
 
 func execService(h History) lib.Case {
 	var k servicekeeper.Keeper
+	var ork oraclekeeper.Keeper
 	bal := sdk.NewCoins(sdk.NewCoin("stake", sdkmath.NewInt(1000000000000)), sdk.NewCoin("other", sdkmath.NewInt(1000000000000)))
-	e := lib.NewEnv(lib.EnvOpts{NActors: 5, Balances: bal, Consumers: []interface{}{&k}, Merge: serviceMerge(10)})
+	e := lib.NewEnv(lib.EnvOpts{NActors: 5, Balances: bal, Consumers: []interface{}{&k, &ork}, Merge: serviceMerge(10)})
 	c := lib.Case{Stats: map[string]int{}}
 	setup := func(what string, out lib.Outcome) {
 		if !out.OK() {
@@ -206,9 +231,16 @@ func execService(h History) lib.Case {
 	type cview struct {
 		rc servicetypes.RequestContext
 	}
+	owned := map[string]bool{} // contexts owned by a module (feeds): outside the model
+	var feeds []string         // feed names
+	feedCtx := map[string]string{}
 	readCtxs := func() map[string]servicetypes.RequestContext {
 		m := map[string]servicetypes.RequestContext{}
 		k.IterateRequestContexts(e.Ctx, func(id tmbytes.HexBytes, rc servicetypes.RequestContext) bool {
+			if rc.ModuleName != "" {
+				owned[string(id)] = true
+				return false
+			}
 			m[string(id)] = rc
 			return false
 		})
@@ -218,6 +250,9 @@ func execService(h History) lib.Case {
 		keys, vals := readKeys(e, servicetypes.StoreKey, prefix)
 		var out []string
 		for i, kk := range keys {
+			if owned[kk] {
+				continue
+			}
 			var v gogotypes.Int64Value
 			e.App.AppCodec().MustUnmarshal(vals[i], &v)
 			out = append(out, lib.Pair(lib.Z(int64(ids.Id(kk))), lib.Z(v.Value)))
@@ -227,6 +262,10 @@ func execService(h History) lib.Case {
 	observe := func(code int) string {
 		var cs []string
 		k.IterateRequestContexts(e.Ctx, func(id tmbytes.HexBytes, rc servicetypes.RequestContext) bool {
+			if rc.ModuleName != "" {
+				owned[string(id)] = true
+				return false
+			}
 			cs = append(cs, lib.Pair(lib.Z(int64(ids.Id(string(id)))), lib.Pair(
 				lib.Pair(lib.Z(int64(rc.State)), lib.B(rc.BatchState == servicetypes.BATCHCOMPLETED), lib.ZU(rc.BatchCounter)),
 				lib.Pair(lib.Z(rc.Timeout), lib.ZU(rc.RepeatedFrequency), lib.Z(rc.RepeatedTotal)),
@@ -235,10 +274,14 @@ func execService(h History) lib.Case {
 		})
 		var nq, xq []string
 		for _, en := range readQueue(e, servicetypes.StoreKey, servicetypes.NewRequestBatchKey) {
-			nq = append(nq, zz(en.Height, ids.Id(en.ID)))
+			if !owned[en.ID] {
+				nq = append(nq, zz(en.Height, ids.Id(en.ID)))
+			}
 		}
 		for _, en := range readQueue(e, servicetypes.StoreKey, servicetypes.ExpiredRequestBatchKey) {
-			xq = append(xq, zz(en.Height, ids.Id(en.ID)))
+			if !owned[en.ID] {
+				xq = append(xq, zz(en.Height, ids.Id(en.ID)))
+			}
 		}
 		return lib.App("mkSObs", lib.Z(int64(code)), lib.Z(e.Height), lib.L(cs...), lib.L(nq...), lib.L(xq...),
 			lib.L(readMarks(servicetypes.NewRequestBatchHeightKey)...), lib.L(readMarks(servicetypes.ExpiredRequestBatchHeightKey)...))
@@ -332,6 +375,80 @@ func execService(h History) lib.Case {
 			lib.Stat(c.Stats, "op:respond")
 			lib.Stat(c.Stats, "res:"+out.Kind)
 			c.Steps = append(c.Steps, fmt.Sprintf("respond #%d provider %d at %d -> %s %s", id, 2+st.D%2, e.Height, out.Kind, out.Err))
+		case "feed", "frespond", "fpause", "fstart":
+			creator := e.Actors[0].String()
+			var out lib.Outcome
+			switch st.Op {
+			case "feed":
+				name := fmt.Sprintf("feed%d", len(feeds))
+				var provs []string
+				for bit, a := range []int{2, 3} {
+					if st.D&(1<<bit) != 0 {
+						provs = append(provs, e.Actors[a].String())
+					}
+				}
+				thr := st.C
+				if thr > len(provs) {
+					thr = len(provs)
+				}
+				out = e.Deliver(&oracletypes.MsgCreateFeed{FeedName: name, LatestHistory: 3, Description: "f", Creator: creator,
+					ServiceName: svcName, Providers: provs, Input: `{"header":{},"body":{}}`, Timeout: st.N,
+					ServiceFeeCap: sdk.NewCoins(sdk.NewCoin("stake", sdkmath.NewInt(100))), RepeatedFrequency: uint64(st.M),
+					AggregateFunc: []string{"avg", "max", "min"}[len(feeds)%3], ValueJsonPath: "last", ResponseThreshold: uint32(thr)})
+				if out.OK() {
+					feeds = append(feeds, name)
+					if f, ok := ork.GetFeed(e.Ctx, name); ok {
+						raw, _ := hex.DecodeString(f.RequestContextID)
+						feedCtx[name] = string(raw)
+						owned[string(raw)] = true
+					}
+					out = e.Deliver(&oracletypes.MsgStartFeed{FeedName: name, Creator: creator})
+				}
+			case "frespond":
+				if len(feeds) == 0 {
+					continue
+				}
+				raw := feedCtx[feeds[st.B%len(feeds)]]
+				prov := e.Actors[2+st.D%2]
+				reqID := strings.Repeat("00", 58)
+				var rc servicetypes.RequestContext
+				k.IterateRequestContexts(e.Ctx, func(id tmbytes.HexBytes, x servicetypes.RequestContext) bool {
+					if string(id) == raw {
+						rc = x
+						return true
+					}
+					return false
+				})
+				k.IterateActiveRequests(e.Ctx, []byte(raw), rc.BatchCounter, func(rid tmbytes.HexBytes, rq servicetypes.Request) {
+					if rq.Provider == prov.String() {
+						reqID = rid.String()
+					}
+				})
+				if reqID == strings.Repeat("00", 58) { // that provider has nothing to answer: any other one
+					k.IterateActiveRequests(e.Ctx, []byte(raw), rc.BatchCounter, func(rid tmbytes.HexBytes, rq servicetypes.Request) {
+						reqID = rid.String()
+						prov, _ = sdk.AccAddressFromBech32(rq.Provider)
+					})
+				}
+				val := fmt.Sprintf("%d.5", st.E)
+				if st.E == 0 {
+					val = "not-a-number"
+				}
+				out = e.Deliver(servicetypes.NewMsgRespondService(reqID, prov.String(), `{"code":200,"message":""}`,
+					fmt.Sprintf(`{"header":{},"body":{"last":"%s"}}`, val)))
+			case "fpause":
+				if len(feeds) == 0 {
+					continue
+				}
+				out = e.Deliver(&oracletypes.MsgPauseFeed{FeedName: feeds[st.B%len(feeds)], Creator: creator})
+			case "fstart":
+				if len(feeds) == 0 {
+					continue
+				}
+				out = e.Deliver(&oracletypes.MsgStartFeed{FeedName: feeds[st.B%len(feeds)], Creator: creator})
+			}
+			lib.Stat(c.Stats, "env:"+st.Op+":"+out.Kind)
+			continue
 		case "block":
 			// which providers pass the filter, per context, on the state before the blocker
 			pre := readCtxs()
